@@ -198,6 +198,17 @@ def _track_cases(ctx):
     for t in range(ctx.n(110, 700)):
         h, w = int(rng.randint(20, 90)), int(rng.randint(20, 90))
         nobj = int(rng.choice([0, 1, 2, 3, 5, 8, 12]))
+        if t % 11 == 3:
+            # objects further apart than max_distance = 300: cost_if_not_too_far returns invalid_match exactly
+            h, w = int(rng.randint(8, 15)), int(rng.randint(330, 420))
+            a = np.zeros((h, w), int); b = np.zeros((h, w), int)
+            for q in range(int(rng.randint(1, 4))):
+                a[1 + 2 * q, int(rng.randint(0, 12)) + (w - 14 if rng.rand() < 0.5 else 0)] = q + 1
+                b[1 + 2 * q, int(rng.randint(0, 12)) + (w - 14 if rng.rand() < 0.5 else 0)] = q + 1
+            a[h - 2:h, 0:int(rng.randint(1, 4))] = int(a.max()) + 1
+            b[h - 2:h, w - int(rng.randint(1, 4)):w] = int(b.max()) + 1
+            cases.append({"fn": "track", "cls": "far", "a": a.tolist(), "b": b.tolist()})
+            continue
         a = _label_image(rng, h, w, nobj, int(rng.choice([2, 4, 9])))
         if rng.rand() < 0.25:       # absent label numbers
             a[a == int(rng.randint(1, nobj + 2))] = 0
@@ -632,12 +643,32 @@ def _renumber(n, tri, drop_r, drop_c):
     return out
 
 
+def _has_pm(n, tri):
+    """Kuhn's augmenting-path bipartite matching: does the sparsity pattern contain a perfect matching?"""
+    adj = [[] for _ in range(n)]
+    for t in tri:
+        adj[t[0]].append(t[1])
+    match = [-1] * n
+
+    def aug(r, seen):
+        for c in adj[r]:
+            if c not in seen:
+                seen.add(c)
+                if match[c] < 0 or aug(match[c], seen):
+                    match[c] = r
+                    return True
+        return False
+    return all(aug(r, set()) for r in range(n))
+
+
 def _valid(n, tri):
     if n < 1 or not tri:
         return False
     if set(t[0] for t in tri) != set(range(n)) or set(t[1] for t in tri) != set(range(n)):
         return False
-    return _brute({"n": n, "tri": tri}) is not None if n <= 7 else True
+    if len(set((t[0], t[1]) for t in tri)) != len(tri):
+        return False
+    return _has_pm(n, tri)
 
 
 def shrink_candidates(case):
@@ -645,7 +676,7 @@ def shrink_candidates(case):
         return
     n, tri = case["n"], case["tri"]
     base = {k: v for k, v in case.items() if k not in ("n", "tri")}
-    if n > 1 and n <= 8:
+    if n > 1 and n <= 12:
         for r in range(n):
             for c in range(n):
                 t2 = _renumber(n, tri, r, c)
